@@ -211,6 +211,36 @@ class SessionInit(Contract):
 
 
 # ------------------------------------------------------------------------------- persist (C16)
+def persist_roles():
+    """the locals of persist() by ROLE, read from the source on every run, so that the invariants below talk about
+    'the attempt counter' and not about an incidental name: counter = the one variable assigned both at the top
+    level of the outer loop (advanced per attempt) and inside the for loop (reset), event = the target of the for loop over connect(), delay = the variable assigned from random()"""
+    import ast
+    from pyvc import source
+    from pyvc.engine import Unsupported
+    node, _ms = source.node_of(persist_mod.persist)
+    outer = next((n for n in node.body if isinstance(n, ast.While)), None)
+    if outer is None:
+        raise Unsupported('persist(): no outer while loop')
+    forloop = next((n for n in outer.body if isinstance(n, ast.For)), None)
+    top = set()
+    for n in outer.body:
+        if isinstance(n, (ast.Assign, ast.AugAssign)):
+            top |= source.assigned_names([n])
+    inner = source.assigned_names(forloop.body) if forloop is not None else set()
+    both = sorted(top & inner)      # advanced once per attempt at the top of the loop, reset while events are passed on
+    counter = both[0] if len(both) == 1 else None
+    ev = next((n.target.id for n in outer.body if isinstance(n, ast.For) and isinstance(n.target, ast.Name)), None)
+
+    def draws(n):
+        return any(isinstance(c, ast.Call) and isinstance(c.func, ast.Name) and c.func.id == 'random' for c in ast.walk(n))
+    delay = next((n.targets[0].id for n in outer.body if isinstance(n, ast.Assign) and isinstance(n.targets[0], ast.Name)
+                  and draws(n.value)), None)
+    if counter is None or ev is None:
+        raise Unsupported('persist(): attempt counter / event loop not recognised')
+    return counter, ev, delay
+
+
 @contract('lomond.persist.persist', serves=['C16'])
 class Persist(ProducerContract):
     """forever: one connection attempt whose events are passed through unchanged and in order, then
@@ -243,7 +273,7 @@ class Persist(ProducerContract):
         st = ip.st
         a = ip.args
         if k == 0:
-            cur = ip.env.vars.get('event')
+            cur = ip.env.vars.get(persist_roles()[1])
             st.oblige('yield0:passes-on-the-connection-event-itself', BoolVal(isinstance(cur, ORef) and v == cur), tags=('C16',))
             seen = st.ghost.setdefault('passed_on', [])
             st.oblige('yield0:each-event-once', BoolVal(isinstance(v, ORef) and v.oid not in seen), tags=('C16',))
@@ -298,10 +328,11 @@ class Persist(ProducerContract):
 
     def loop(self, k):
         contract_self = self
+        counter, ev, delay = persist_roles()
 
         def inv0(ip):
             st = ip.st
-            return [('retries-counts-consecutive-attempts-without-Ready', iv(ip.env.vars['retries']) == st.ghost['k'], ('C16',)),
+            return [('retries-counts-consecutive-attempts-without-Ready', iv(ip.env.vars[counter]) == st.ghost['k'], ('C16',)),
                     ('k-non-negative', st.ghost['k'] >= 0)]
 
         def mods0(ip):
@@ -312,12 +343,15 @@ class Persist(ProducerContract):
 
         def inv1(ip):
             st = ip.st
-            return [('retries-is-0-after-Ready-else-k+1', iv(ip.env.vars['retries']) == contract_self.expected_retries(st), ('C16',))]
+            return [('retries-is-0-after-Ready-else-k+1', iv(ip.env.vars[counter]) == contract_self.expected_retries(st), ('C16',))]
 
         def mods1(ip):
             return [('ghost', 'ready_seen', lambda ip: fresh('ready_seen', B))]
         if k == 0:
-            return LoopSpec(inv=inv0, modifies=mods0, locals={'event': T.Const(None), 'wait_for': T.Real})
+            loc = {ev: T.Const(None)}
+            if delay:
+                loc[delay] = T.Real
+            return LoopSpec(inv=inv0, modifies=mods0, locals=loc)
         if k == 1:
-            return LoopSpec(inv=inv1, modifies=mods1, locals={'event': T.Const(None)})
+            return LoopSpec(inv=inv1, modifies=mods1, locals={ev: T.Const(None)})
         return None
